@@ -228,15 +228,19 @@ class Sim:
         return self.judge(h, res, full=True)
 
     # ------------------------------------------------------------------ minimise
-    def minimise(self, rp: dict, target: dict, budget=150, avoid_known=True) -> dict:
+    def minimise(self, rp: dict, target: dict, budget=150, avoid_known=True, wall_s=150.0) -> dict:
         """ddmin over the resolved op list, then program and fault simplification.  A candidate
         is kept only if the same violation class persists for the same program."""
         sig = (target["oracle"], target["kind"].split(":")[0], target["p"])
         tries = 0
+        t_end = time.monotonic() + wall_s
 
         def reproduces(cand: dict) -> bool:
             nonlocal tries
             tries += 1
+            if time.monotonic() > t_end:
+                tries = max(tries, budget)  # out of time: every remaining loop sees an exhausted budget
+                return False
             try:
                 vs = self.replay(cand)
             except HarnessError:
@@ -347,7 +351,7 @@ class Sim:
         rp_cur["minimise_tries"] = tries
         return rp_cur
 
-    def report(self, v: dict, seed, cfg_name, minimise=True, out_dir=None, avoid_known=True) -> dict:
+    def report(self, v: dict, seed, cfg_name, minimise=True, out_dir=None, avoid_known=True, wall_s=150.0) -> dict:
         """turn a violation into a (minimised) replay file; returns info incl. path"""
         h = v["hist"]
         rp = {
@@ -366,7 +370,7 @@ class Sim:
         minimised = False
         if minimise:
             try:
-                m = self.minimise(rp, v, avoid_known=avoid_known)
+                m = self.minimise(rp, v, avoid_known=avoid_known, wall_s=wall_s)
                 vs = [x for x in self.replay(m) if x["p"] == v["p"] and x["kind"].split(":")[0] == v["kind"].split(":")[0]]
                 if vs:
                     rp = m
